@@ -1,6 +1,7 @@
 package props
 
 import (
+	"fmt"
 	"go/token"
 
 	"bifrostverify/an"
@@ -144,6 +145,8 @@ func c01(c *an.Check) {
 // the constant signature (identity, 0) verifies every message: they have no private key).
 func ed25519VerifyGates(c *an.Check) {
 	p := c.P
+	// the key that verifies is parsed by the unmarshaller registered for the key type the encoding itself declares
+	keyUnmarshalDispatchGates(c)
 	upk := p.Func("crypto", "", "UnmarshalEd25519PublicKey")
 	c.Gate(an.GateSpec{Construct: "crypto.UnmarshalEd25519PublicKey success-return", Fn: upk, Sink: successReturn, Reqs: []an.Req{
 		an.FactReq("len(data)==32", func(s *an.State, x, y ssa.Value, r an.Rel) bool {
@@ -181,8 +184,38 @@ func ed25519VerifyGates(c *an.Check) {
 		}})
 }
 
+// signedMsgNilDeref: "verification never panics on arbitrary message bytes" — in the signed-message verification
+// functions a possibly-absent sub-message (or the value half of a failed (value, error) call) is dereferenced only where
+// it is known present; methods that tolerate a nil receiver are recognised by a computed summary.
+func signedMsgNilDeref(c *an.Check) {
+	p := c.P
+	var fns []*ssa.Function
+	for _, w := range [][2]string{{"SignedMsg", "ExtractAndVerify"}, {"SignedMsg", "Verify"}, {"SignedMsg", "ExtractPubKey"}, {"SignedMsg", "ParseFromPeerID"}, {"SignedMsg", "ComputeMessageID"}, {"Signature", "Validate"}, {"Signature", "VerifyWithPublic"}, {"Signature", "ParsePubKey"}, {"ID", "ExtractPublicKey"}, {"ID", "MatchesPublicKey"}} {
+		if f := p.Func("peer", w[0], w[1]); f != nil {
+			fns = append(fns, f)
+		}
+	}
+	for _, n := range []string{"UnmarshalSignedMsg", "IDFromBytes", "IDB58Decode"} {
+		if f := p.Func("peer", "", n); f != nil {
+			fns = append(fns, f)
+		}
+	}
+	for _, n := range []string{"UnmarshalPublicKey", "PublicKeyFromProto", "UnmarshalEd25519PublicKey"} {
+		if f := p.Func("crypto", "", n); f != nil {
+			fns = append(fns, f)
+		}
+	}
+	an.NilProducer = nilProducers
+	n := c.NilDerefGuard("NILDEREF", "signed message verification: possibly-absent message fields and (value, error) results dereferenced only when known present", fns, nilSafeRecv(p))
+	an.NilProducer = nil
+	if len(fns) < 16 || n == 0 {
+		c.Undecided("NILDEREF", "signed message verification", nil, fmt.Sprintf("only %d verification functions / %d sites resolved (anchor drift)", len(fns), n))
+	}
+}
+
 func sigVerifyWithPublicGates(c *an.Check) {
 	ed25519VerifyGates(c)
+	signedMsgNilDeref(c)
 	vwp := c.P.Func("peer", "Signature", "VerifyWithPublic")
 	// the verification runs on the caller's key (the one derived from the claimed sender), never on a key the signature
 	// object brings along, and over the signature's own bytes
